@@ -902,6 +902,10 @@ func (fr *Frame) siteClauses(in ssa.Instruction, c *ssa.CallCommon, display stri
 			fr.applyGhost(in, s.Ghost, ec)
 			continue
 		}
+		if s.Kind == "never" {
+			ex.oblige("never", fmt.Sprintf("%s%s#%d", sanitize(prefix), sanitize(s.Callee), fr.siteOrdinal(in, s.Callee)), "false", fr.curReach, "the contract forbids calling "+s.Callee+" here: "+s.Cl.Src, in.Pos(), s.Cl.Prop)
+			continue
+		}
 		g, err := ec.tryBool(s.Cl.E)
 		if err != nil {
 			ex.failOb("contract-typechecks", "site/"+s.Callee, err.Error()+" in "+s.Cl.Src, in.Pos())
@@ -954,6 +958,16 @@ func (fr *Frame) siteClausesNamed(in ssa.Instruction, display string, pos token.
 }
 
 func siteMatches(display, pat string) bool {
+	if strings.Contains(pat, "|") {
+		// alternatives: "helper|leafA|leafB" names a site that may sit in a helper or, once the helper is inlined, at
+		// the calls the helper made
+		for _, alt := range strings.Split(pat, "|") {
+			if alt != "" && siteMatches(display, alt) {
+				return true
+			}
+		}
+		return false
+	}
 	if pat == display {
 		return true
 	}
